@@ -203,6 +203,7 @@ async def base_session(sim, shape, inject):
                 await sim.settle(0.02)
     finally:
         await asyncio.gather(inj, return_exceptions=True)
+        sim.state_at_end = c.state.name       # before the harness's own final close()
         if not sim.events or sim.events[-1] != "closeReturn":
             if c.state.name != "CLOSED" or "closeReturn" not in sim.events:
                 try:
@@ -252,6 +253,25 @@ def injector(action, ticks=None, at=None):
             sim.feed(bytes([0x55, 0xaa, 0x0a, 0x41, 0x20, 0x0d, 0x0a, 0xff] * 3))
             await sim.ticks(2)
             sim.eof()
+        elif action == "close-twice":
+            # two close() calls that overlap (the first one is still in its status callback when the second is made)
+            async def one():
+                try:
+                    await c.close()
+                except Exception as e:
+                    sim.emit(f"apiRaised close {type(e).__name__}")
+            await asyncio.gather(one(), one())
+        elif action == "close-interrupted":
+            # a close() that the application gives up on (wait_for) while the status callback is still running, then a second close()
+            try:
+                await asyncio.wait_for(c.close(), 0.01)
+            except (asyncio.TimeoutError, asyncio.CancelledError):
+                pass
+            await sim.pause(0.2)
+            try:
+                await c.close()
+            except Exception as e:
+                sim.emit(f"apiRaised close {type(e).__name__}")
         elif action == "busy" and sim.conns:
             sim.busy()
         elif action == "eof-close" and sim.conns:
@@ -323,10 +343,19 @@ def scenarios(ctx):
                 for kindp, v in [("ticks", 6), ("at", 0.4), ("at", 2.0)]:
                     out.append(dict(kind=kind, shape="plain", connect=cs, action=action, point=[kindp, v], cb="ok", status="ok", drain=None))
         # a backlog in the queue when the callback closes, raises or is slow
-        for cbm in ("close", ["ok", "close"], ["ok", "ok", "close"], ["ok", "raise", "close"], "slow", ["slow", "close"]):
+        for cbm in ("close", ["ok", "close"], ["ok", "ok", "close"], ["ok", "raise", "close"], "slow", ["slow", "close"], ["slow", "ok", "ok", "ok", "ok", "ok", "ok"]):
             for action in ("none", "eof"):
                 for kindp, v in [("ticks", 6), ("at", 0.4)]:
                     out.append(dict(kind=kind, shape="burst", connect=["ok"], action=action, point=[kindp, v], cb=cbm, status="ok", drain=None))
+        for action in ("close-twice", "close-interrupted"):
+            for stm in ("slow", "ok"):
+                for kindp, v in [("ticks", 6), ("at", 0.4), ("at", 2.0)]:
+                    out.append(dict(kind=kind, shape=rnd.choice(["plain", "send"]), connect=["ok"], action=action, point=[kindp, v], cb="ok", status=stm, drain=None))
+        if kind != "actisense":
+            # the link resets under the message the application sends when it is told CONNECTED, twice in a row
+            for action in ("none", "eof"):
+                for kindp, v in [("ticks", 6), ("at", 0.4), ("at", 2.0)]:
+                    out.append(dict(kind=kind, shape="plain", connect=["ok"], action=action, point=[kindp, v], cb="ok", status="send-on-connected", drain=None))
         if kind == "ebyte":
             # the gateway is busy ('Sorry,Limited'): 30 s pause, then the link is given up and re-established
             for kindp, v in [("ticks", 6), ("at", 0.003), ("at", 0.4), ("at", 2.0)]:
@@ -678,6 +707,14 @@ def monitor(sim, sc):
         if run >= 3:
             out.append(("C13", "no-yield", "three or more frames were received and processed within one event-loop step: buffered input is processed without giving other tasks a turn"))
             break
+    # … and neither is a backlog in the queue delivered within one step (callbacks that do not suspend)
+    its = getattr(sim, "cb_loop_iters", [])
+    run = 1
+    for a, b in zip(its, its[1:]):
+        run = run + 1 if a == b else 1
+        if run >= 3:
+            out.append(("C13", "no-yield", "three or more queued messages were delivered to the callback within one event-loop step: a backlog is delivered without giving other tasks a turn"))
+            break
     st = sim.status_log
     for a, b in zip(st, st[1:]):
         if a == b:
@@ -708,6 +745,14 @@ def monitor(sim, sc):
         if before and before[-1] == "status CONNECTED" and sc["action"] in ("eof", "readerr", "garbage-eof"):
             if after[:2] != ["DISCONNECTED", "CONNECTED"]:
                 out.append(("C13", "no-recovery", f"after a fault while CONNECTED the status sequence is {after} (expected DISCONNECTED then CONNECTED)"))
+    # C13: whatever faults there were, a client that nobody closed is CONNECTED again in the end (the gateway accepts, and more than
+    # ten seconds have passed since the last injected fault)
+    closes = sc["action"] in ("close", "eof-close", "close-twice", "close-interrupted") or "close" in str(sc["cb"]) or "close" in sc["status"]
+    if not closes and sc["shape"] != "flap" and sc["action"] != "busy" and sc["connect"][-1] == "ok" and getattr(sim, "state_at_end", "CONNECTED") != "CONNECTED" and "STALL" not in ev:
+        out.append(("C13", "not-recovered", f"at the end of the session (12 s after the last fault, the gateway accepting) the client is {sim.state_at_end}: status log {sim.status_log}"))
+    # C14: when close() returns, the link has been shut (every close() call, also a second one)
+    if "--closeReturnedLinkOpen" in ev:
+        out.append(("C14", "link-open-at-return", "a close() call returned while the link was still open"))
     # C19: contiguity, order, bad messages harmless
     ids = [sim.packet_ids[b] for _, b in sim.wire if b in sim.packet_ids]
     seen_done = set()
